@@ -282,6 +282,9 @@ def logNext : Nat → Tag → World → World := fun x g w => w.emit (.next x) g
 /-- the operations of a case: build-only, Eval, Subscribe with / without OnNext, Cor.YieldFromIO,
     ObserveOn(h), SubscribeOn(h) on the composed value -/
 inductive Op | build | eval | sub | subNil | yield | ob (h : Option Tag) | so (h : Option Tag)
+  | race (h : Option Tag)   -- `r<h>`: ObserveOn(h3); Subscribe while h3's goroutine is busy; SubscribeOn(h) before the effect runs
+  | derive (c : Nat)   -- `d<c>`: the current value becomes `m.FlatMap(k_c)` (k_c logs `call c x` and returns Just((x+1) % 1000));
+                       -- the harness also derives a second, never evaluated FlatMap from the same `m` right afterwards
 deriving DecidableEq, Repr
 
 def parseOp (s : String) : Option Op :=
@@ -289,7 +292,8 @@ def parseOp (s : String) : Option Op :=
   | "b" => some .build | "e" => some .eval | "s" => some .sub | "z" => some .subNil | "y" => some .yield
   | "o0" => some (.ob none) | "o1" => some (.ob (some .h1)) | "o2" => some (.ob (some .h2)) | "o3" => some (.ob (some .h3))
   | "u0" => some (.so none) | "u1" => some (.so (some .h1)) | "u2" => some (.so (some .h2)) | "u3" => some (.so (some .h3))
-  | _ => none
+  | "r0" => some (.race none) | "r1" => some (.race (some .h1)) | "r2" => some (.race (some .h2)) | "r3" => some (.race (some .h3))
+  | _ => if s.startsWith "d" then (s.drop 1).toString.toNat?.map .derive else none
 
 /-- one operation of the implementation model: the current MonadIO value and world -/
 def implOp (st : M Nat × World) : Op → (M Nat × World) × String
@@ -308,6 +312,12 @@ def implOp (st : M Nat × World) : Op → (M Nat × World) × String
     ((r.1, r.2.2), s!"v={r.2.1} {showEvs (r.2.2.log.drop st.2.log.length)}")
   | .ob h => ((observeOn st.1 h, st.2), "-")
   | .so h => ((subscribeOn st.1 h, st.2), "-")
+  | .derive c => ((flatMap st.1 (kont c (fun x => den (.V 1) x)), st.2), "-")
+  | .race h =>
+    -- Subscribe reads both handler fields when it is called; a later SubscribeOn does not reach the subscription in flight
+    let m1 := observeOn st.1 (some .h3)
+    let w' := subscribe m1 ⟨some logNext⟩ .main st.2
+    ((subscribeOn m1 h, w'), showEvs (w'.log.drop st.2.log.length))
 
 def stepOp (st : M Nat × World) (op : String) : (M Nat × World) × String :=
   match parseOp op with
@@ -369,6 +379,13 @@ def specOp' (st : SpecSt) : Op → SpecSt × String
     ({ st with n := st.n + r.2.length, sub := none }, s!"v={r.1} {joinEvs (showKinds r.2 g1)}")
   | .ob h => ({ st with ob := h }, "-")
   | .so h => ({ st with sub := h }, "-")
+  | .derive c => ({ st with t := .FL c st.t (.V 1), ob := none, sub := none }, "-")
+  | .race h =>
+    -- the handler pair in force when Subscribe is called decides: effect on h3, delivery on the OLD subscribe handler
+    let r := run st.t 0 st.n
+    let g2 := st.sub.getD .h3
+    ({ st with ob := some .h3, sub := h, n := st.n + r.2.length + 1 },
+     joinEvs (showKinds r.2 .h3 ++ showKinds [.next r.1] g2))
 
 def specOp (st : SpecSt) (op : String) : SpecSt × String :=
   match parseOp op with
